@@ -2,8 +2,10 @@ import MosnVerif.Drive.Util
 import MosnVerif.Model.FrameSteps
 import MosnVerif.Model.Match
 import MosnVerif.Model.FrameSpec
+import MosnVerif.Model.FrameH2
 /-! driver of C07 (segmentation independence): see `run` for the case kinds. Core Lean only. -/
 namespace MosnVerif.Drive.C07
+open MosnVerif.Model.FramingS MosnVerif.Model.FrameH2 MosnVerif.Gen.FrameConsts
 open MosnVerif.Drive MosnVerif.Model.Framing MosnVerif.Model.FrameSteps MosnVerif.Model.FrameSpec MosnVerif.Model.Match
 
 def parseNats (s : String) : Option (List Nat) :=
@@ -119,12 +121,61 @@ def selectK (scope stream maxp : String) (impl : List String) : String :=
     | none => "E E unknown-matcher"
   | _, _, _ => "E E bad-case"
 
+/-- the HTTP/2 server-side decoder with the default read limit; payload parsers and HPACK are instantiated with
+"accepts" (the generated frames are valid) -/
+def h2d : Bool → Bytes → Step (Option Bytes × Bool) := h2Step http2_defaultMaxReadFrameSize accept accept
+
+def h2Items (l : List (Option Bytes)) : List Bytes := l.filterMap id
+
+/-- `h2seg <stream> <item lengths> <chunk lengths> => <items> <residue> <failed>`: item = the preface or one frame /
+HEADERS+CONTINUATION group, as drained by the real `ServerProto.Decode` in a loop shaped like http2 `Dispatch` -/
+def h2seg (stream lens chunks : String) (impl : List String) : String :=
+  match unhex stream, parseNats lens, parseNats chunks, impl with
+  | some s, some ls, some cs, [fr, res, fl] =>
+    match parseHexList fr, unhex res with
+    | some ifr, some ires =>
+      let c := srun h2d false (chunk s cs)
+      -- the preface item is printed by its bytes as well
+      let out := c.out.map (fun o => o.getD ((http2_preface.map UInt8.ofNat)))
+      let agree := out == ifr && c.buf == ires && flag c.failed == fl
+      let spec := specSeg s ls ifr ires (fl != "0")
+      s!"{if agree then "A" else "D"} {if spec then "S" else "V"} {hexList out} {hex c.buf} {flag c.failed}"
+    | _, _ => "E E bad-impl"
+  | _, _, _, _ => "E E bad-case"
+
+/-- `h2cuts <stream> <item lengths> => <a:b:digest:failed>,…` every two-read delivery -/
+def h2cuts (stream lens : String) (impl : List String) : String :=
+  match unhex stream, parseNats lens, impl with
+  | some s, some ls, [obs] =>
+    let ks := (List.range (s.length - 1)).map (· + 1)
+    let pre := http2_preface.map UInt8.ofNat
+    let init : SConn (Option Bytes) Bool := { buf := [], out := [], failed := false, st := false }
+    let model := ks.map (fun k =>
+      let c1 := sfeed h2d init (s.take k)
+      let c2 := sfeed h2d c1 (s.drop k)
+      s!"{c1.out.length}:{c2.out.length}:{hex32 (digest (c2.out.map (fun o => o.getD pre)) c2.buf)}:{flag c2.failed}")
+    let io := if obs == "-" then [] else obs.splitOn ","
+    let agree := model == io
+    let specOne (k : Nat) (o : String) : Bool :=
+      match o.splitOn ":" with
+      | [a, b, h, f] =>
+        (match a.toNat?, b.toNat?, parseHex32 h with
+         | some a, some b, some dg => specCut s ls k a b dg (f != "0")
+         | _, _, _ => false)
+      | _ => false
+    let spec := io.length == ks.length && (ks.zip io).all (fun p => specOne p.1 p.2)
+    let firstDiff := ((ks.zip (model.zip io)).find? (fun p => p.2.1 != p.2.2)).map (fun p => s!"k={p.1} model={p.2.1}")
+    s!"{if agree then "A" else "D"} {if spec then "S" else "V"} {firstDiff.getD "all-cuts-agree"}"
+  | _, _, _ => "E E bad-case"
+
 def run (caseToks impl : List String) : String :=
   match caseToks with
   | ["seg", proto, stream, lens, chunks] => seg proto stream lens chunks impl
   | ["cuts", proto, stream, lens] => cuts proto stream lens impl
   | ["match", stream, maxp] => matchK stream maxp impl
   | ["select", scope, stream, maxp] => selectK scope stream maxp impl
+  | ["h2seg", stream, lens, chunks] => h2seg stream lens chunks impl
+  | ["h2cuts", stream, lens] => h2cuts stream lens impl
   | _ => "E E unknown-kind"
 
 end MosnVerif.Drive.C07
